@@ -258,8 +258,56 @@ def open_save(data, form, tmp, as_presentation):
     return out.getvalue()
 
 
+def out_of_order_twice(ctx):
+    """'slide part names that are non-contiguous or out of order ... open intact': such a deck opened, saved BEFORE the slides
+    are looked at, then looked at (the parts are renamed on first access) and saved again - both files must re-open with the
+    same slides in the same order, every relationship target present"""
+    import io
+    import zipfile
+
+    from pptx import Presentation
+    from pptx.opc.packuri import PackURI
+
+    rng = ctx.rng
+    for trial in range(4 if ctx.quick else 30):
+        prs = Presentation()
+        n = rng.randint(3, 6)
+        for i in range(n):
+            s_ = prs.slides.add_slide(prs.slide_layouts[5]); s_.shapes.title.text = "slide-%d" % i
+        for s_, num in zip(list(prs.slides), rng.sample(range(1, 12), n)):
+            s_.part.partname = PackURI("/ppt/slides/slide%d.xml" % num)
+        b = io.BytesIO(); prs.save(b)
+        want = ["slide-%d" % i for i in range(n)]
+        p2 = Presentation(io.BytesIO(b.getvalue()))
+        first = io.BytesIO(); p2.save(first)                      # nothing read yet
+        titles_mem = [s_.shapes.title.text for s_ in p2.slides]   # first access: slide parts renamed
+        second = io.BytesIO(); p2.save(second)
+        ctx.case(key=("out-of-order-twice", trial))
+        for which, data in (("first", first.getvalue()), ("second", second.getvalue())):
+            case = {"input": "slide parts out of order", "save": which, "slides": n}
+            try:
+                got = [s_.shapes.title.text for s_ in Presentation(io.BytesIO(data)).slides]
+            except Exception as e:  # noqa
+                ctx.fail("out-of-order:reopen-raised", f"deck with out-of-order slide part names: the {which} save cannot be re-opened: {type(e).__name__}: {str(e)[:120]}", case)
+                continue
+            if got != want or titles_mem != want:
+                ctx.fail("out-of-order:slides-differ", f"deck with out-of-order slide part names: the {which} save re-opens with slides {got}, in memory {titles_mem}, expected {want}", case)
+            z = zipfile.ZipFile(io.BytesIO(data))
+            names = set(z.namelist())
+            for m in names:
+                if m.endswith(".rels"):
+                    d, f = m.rsplit("_rels/", 1)
+                    src = "/" if m == "_rels/.rels" else "/" + d + f[: -len(".rels")]
+                    from lxml import etree
+                    for e in etree.fromstring(z.read(m)):
+                        if e.get("TargetMode") != "External" and c01.resolve(src, e.get("Target"))[1:] not in names:
+                            ctx.fail("out-of-order:dangling-target", f"the {which} save: {m} targets {e.get('Target')}, not in the file", case)
+
+
 def correspond(ctx):
     from pptx.exc import PackageNotFoundError
+
+    out_of_order_twice(ctx)
 
     rng = ctx.rng
     tmp = common.scratch()
